@@ -4,7 +4,8 @@
 //! `domain::zonefile::inplace::Zonefile::next_entry` loop:
 //!
 //! * `bytes`  — every byte string over a 14-symbol alphabet up to a length,
-//!   behind each of three context prefixes.
+//!   behind each of five context prefixes (three between entries, two inside
+//!   the RDATA of a TXT / MX record).
 //! * `tokens` — every token string over a 26-token menu up to a depth, behind
 //!   each of the three context prefixes.
 //! * `layout` — logical files (record lists) and *every* rendering of each
@@ -266,8 +267,11 @@ const TOKENS: [&str; 26] = [
     "\n", "\\065", "\\", "$TTL", "$ORIGIN", "$INCLUDE", "\n ",
 ];
 
-const PREFIXES: [&str; 3] = ["", "$ORIGIN z.\n", "$ORIGIN z.\na IN 60 A 1.2.3.4\n"];
-const PREFIX_ENTRIES: [usize; 3] = [0, 0, 1];
+/// Context prefixes.  0..3 are used by both totality spaces; 3 and 4 end
+/// inside a record so that short byte strings become TXT character strings
+/// and a domain name in RDATA (the in-place conversions); bytes space only.
+const PREFIXES: [&str; 5] = ["", "$ORIGIN z.\n", "$ORIGIN z.\na IN 60 A 1.2.3.4\n", "$ORIGIN z.\na IN 60 TXT ", "$ORIGIN z.\na IN 60 MX 1 "];
+const PREFIX_ENTRIES: [usize; 5] = [0, 0, 1, 0, 0];
 
 fn render_tokens(prefix: usize, toks: &[u8]) -> Vec<u8> {
     let mut v = PREFIXES[prefix].as_bytes().to_vec();
@@ -409,7 +413,9 @@ fn totality_case(sh: &Shared, part: &str, prefix: usize, items: &[u8], with_pars
     if let Some((class, what)) = ex.viol {
         l.bump(&format!("{part}.violating-cases"));
         let min = minimise(items, &render, &class, with_parsed);
-        let min_body = if is_tok { render_tokens(0, &min) } else { min.clone() };
+        // the unfinished last line of the prefix belongs to the failing entry
+        let mut min_body = PREFIXES[prefix].rsplit('\n').next().unwrap_or("").as_bytes().to_vec();
+        min_body.extend(if is_tok { render_tokens(0, &min) } else { min.clone() });
         let sig = format!("C07|{class}|ctx={}", ctx_word(&min_body));
         if !first_in_thread(&sig) {
             return;
@@ -426,8 +432,8 @@ fn totality_case(sh: &Shared, part: &str, prefix: usize, items: &[u8], with_pars
 
 const CHUNK: u64 = 4096;
 
-fn totality_space(sh: &Shared, part: &str, alphabet: usize, max_len: usize, parsed_len: usize) {
-    for prefix in 0..PREFIXES.len() {
+fn totality_space(sh: &Shared, part: &str, alphabet: usize, max_len: usize, parsed_len: usize, prefixes: std::ops::Range<usize>) {
+    for prefix in prefixes {
         for len in 0..=max_len {
             let total = pow(alphabet, len);
             let chunks = total.div_ceil(CHUNK);
@@ -1206,12 +1212,16 @@ fn l1_report(sh: &Shared, owner_i: usize, kind: Kind, c: &[usize], class: &str, 
             if cur[i] == 0 {
                 continue;
             }
-            let mut t = cur.clone();
-            t[i] = 0;
-            if let Some(r) = l1_render(owner_i, kind, &t) {
-                if layout_verdict(&r.text, &r.expected).map(|v| v.0).as_deref() == Some(class) {
-                    cur = t;
-                    changed = true;
+            // smallest value of this slot that still shows the same outcome
+            for v in 0..cur[i] {
+                let mut t = cur.clone();
+                t[i] = v;
+                if let Some(r) = l1_render(owner_i, kind, &t) {
+                    if layout_verdict(&r.text, &r.expected).map(|v| v.0).as_deref() == Some(class) {
+                        cur = t;
+                        changed = true;
+                        break;
+                    }
                 }
             }
         }
@@ -1242,12 +1252,15 @@ fn l2_report(sh: &Shared, file: &[LRec], ch: &[[usize; 5]], class: &str, what: &
                 if cur[i][s] == 0 {
                     continue;
                 }
-                let mut t = cur.clone();
-                t[i][s] = 0;
-                if let Some(r) = l2_render(file, &t) {
-                    if layout_verdict(&r.text, &r.expected).map(|v| v.0).as_deref() == Some(class) {
-                        cur = t;
-                        changed = true;
+                for v in 0..cur[i][s] {
+                    let mut t = cur.clone();
+                    t[i][s] = v;
+                    if let Some(r) = l2_render(file, &t) {
+                        if layout_verdict(&r.text, &r.expected).map(|v| v.0).as_deref() == Some(class) {
+                            cur = t;
+                            changed = true;
+                            break;
+                        }
                     }
                 }
             }
@@ -1297,7 +1310,11 @@ fn l2_report(sh: &Shared, file: &[LRec], ch: &[[usize; 5]], class: &str, what: &
         }
     }
     // inheritance outcomes do not depend on the record type
-    let kind = if ["records-differ:ttl", "records-differ:class", "records-differ:owner"].contains(&class) { "*" } else { file[at].kind.name() };
+    let kind = if ["records-differ:ttl", "records-differ:class", "records-differ:owner"].contains(&class) || class.starts_with("rejected:missing last") {
+        "*"
+    } else {
+        file[at].kind.name()
+    };
     let sig = format!("C07|layout|L2|kind={kind}|{}|{class}", parts.join(","));
     if !first_in_thread(&sig) {
         return;
@@ -1306,7 +1323,9 @@ fn l2_report(sh: &Shared, file: &[LRec], ch: &[[usize; 5]], class: &str, what: &
         &sig,
         &format!("{what}; minimal rendering {:?}", rmin.text),
         json!({"part": "layout", "text": r.text, "expected_hex": r.expected.iter().map(|e| hex(e)).collect::<Vec<_>>(),
-               "minimal_text": rmin.text, "space": "L2"}),
+               "minimal_text": rmin.text, "space": "L2",
+               "file": file.iter().map(|r| json!([r.owner, r.ttl, r.kind.name()])).collect::<Vec<_>>(),
+               "choices": ch.iter().map(|c| c.to_vec()).collect::<Vec<_>>()}),
     );
 }
 
@@ -1535,6 +1554,34 @@ fn replay(sh: &Shared, lc: &LayoutCounters, case: &Value) {
                     let c: Vec<usize> = case["choices"].as_array().unwrap().iter().map(|x| x.as_u64().unwrap_or(0) as usize).collect();
                     let kind = L1_KINDS.iter().copied().find(|k| Some(k.name()) == case["kind"].as_str()).unwrap_or(Kind::A);
                     l1_report(sh, case["owner"].as_u64().unwrap_or(0) as usize, kind, &c, &class, &what);
+                } else if case["space"].as_str() == Some("L2") && case["choices"].is_array() && case["file"].is_array() {
+                    let file: Vec<LRec> = case["file"]
+                        .as_array()
+                        .unwrap()
+                        .iter()
+                        .map(|r| LRec {
+                            owner: r[0].as_u64().unwrap_or(0) as usize,
+                            ttl: r[1].as_u64().unwrap_or(60) as u32,
+                            kind: L1_KINDS.iter().copied().find(|k| Some(k.name()) == r[2].as_str()).unwrap_or(Kind::A),
+                        })
+                        .collect();
+                    let ch: Vec<[usize; 5]> = case["choices"]
+                        .as_array()
+                        .unwrap()
+                        .iter()
+                        .map(|c| {
+                            let mut a = [0usize; 5];
+                            for (i, x) in c.as_array().map(|v| v.as_slice()).unwrap_or(&[]).iter().take(5).enumerate() {
+                                a[i] = x.as_u64().unwrap_or(0) as usize;
+                            }
+                            a
+                        })
+                        .collect();
+                    if l2_render(&file, &ch).map(|r| r.text) == Some(text.clone()) {
+                        l2_report(sh, &file, &ch, &class, &what);
+                    } else {
+                        sh.ctx.violation(&format!("C07|layout|replay|{class}"), &what, case.clone());
+                    }
                 } else {
                     sh.ctx.violation(&format!("C07|layout|replay|{class}"), &what, case.clone());
                 }
@@ -1573,9 +1620,9 @@ fn main() {
         // --- totality
         let t0 = std::time::Instant::now();
         let lap = |what: &str| eprintln!("[c07] {what} done at {:.1}s", t0.elapsed().as_secs_f64());
-        totality_space(&sh, "bytes", ALPHA.len(), byte_len, 4);
+        totality_space(&sh, "bytes", ALPHA.len(), byte_len, 4, 0..5);
         lap("bytes");
-        totality_space(&sh, "tokens", TOKENS.len(), tok_depth, parsed_tok_depth);
+        totality_space(&sh, "tokens", TOKENS.len(), tok_depth, parsed_tok_depth, 0..3);
         lap("tokens");
         // --- layout independence
         run_l1(&sh, &lc, false, None);
@@ -1615,7 +1662,7 @@ fn main() {
             "rule": "distinct inputs (FNV-1a of the text) that are either a totality case in which the strict reader returned at least one entry from the enumerated body and then had to decide more (a further entry or an error), or a layout rendering in the base style (L1: separator=space,line-end=lf,no sentinel; L2 with <=2 records: all records in plain style); the remaining renderings are counted in evaluations only",
             "exhaustive": ctx.replay.is_none(),
             "bounds": {"byte_alphabet": String::from_utf8_lossy(ALPHA), "byte_len": byte_len, "token_menu": TOKENS, "token_depth": tok_depth,
-                       "parsed_try_from_depth": {"bytes": 4, "tokens": parsed_tok_depth}, "prefixes": PREFIXES,
+                       "parsed_try_from_depth": {"bytes": 4, "tokens": parsed_tok_depth}, "prefixes_bytes": PREFIXES, "prefixes_tokens": &PREFIXES[..3],
                        "layout_L1": "3 owners x 6 data kinds, slots dollar-ttl(2) x owner(5) x class-ttl(5) x data-form(<=6) x separator(3) x continuation(1+4*gaps) x line-end(9) x sentinel(3)",
                        "layout_L2": if quick { "files of 1 and 2 records over 3 owners x ttl{60,3600} x {A,TXT,SOA,MX,TYPE65280}; per record $TTL(3) x $ORIGIN-change(2, before record 2) x owner(3) x class-ttl(5) x style(4)" } else { "files of 1 and 2 records over 3 owners x ttl{60,3600} x {A,TXT,SOA,MX,TYPE65280} and of 3 records over 3 owners x ttl{60,3600} x {A,TXT}; per record $TTL(3) x $ORIGIN-change(2, before record 2) x owner(3) x class-ttl(5) x style(4)" }},
             "layout_renderings_parsed": lc.renderings.load(AO::Relaxed),
